@@ -652,4 +652,80 @@ theorem commit_keeps_reads (H : RootPre → String) (l l1 : L) (h : Nat) (hC : O
       exact (commits_frame (flushItems l) l.db a hno).2.2 k
 
 
+-- ------------------------------------------------------------------------------------ the inner-account cache
+
+/-- every account record the inner-account cache holds is the record the database holds -/
+def InnerDb (l : L) : Prop := ∀ a ia, KV.get l.cache.inner a = some ia → KV.get l.db.acct a = some ia
+
+theorem ivOf_loadAcct {l : L} {a : Addr} {acc : Acct} (h : loadAcct l a = some acc) :
+    ivOf acc = (match KV.get l.cache.inner a with | some ia => ia | none => (KV.get l.db.acct a).getD {}) := by
+  unfold loadAcct at h
+  cases hc : KV.get l.cache.inner a with
+  | some ia =>
+    rw [hc] at h
+    simp only at h
+    injection h with h
+    subst h
+    split <;> rfl
+  | none =>
+    rw [hc] at h
+    simp only at h
+    cases hd : KV.get l.db.acct a with
+    | some ia =>
+      rw [hd] at h
+      simp only at h
+      injection h with h
+      subst h
+      simp only [Option.getD_some]
+      split <;> rfl
+    | none => rw [hd] at h; cases h
+
+theorem peekInner_not_object (l : L) (a : Addr) (h : KV.get l.accounts a = none) :
+    peekInner l a = (match KV.get l.cache.inner a with | some ia => ia | none => (KV.get l.db.acct a).getD {}) := by
+  unfold peekInner viewAcct
+  rw [h]
+  simp only
+  cases hl : loadAcct l a with
+  | some acc => exact ivOf_loadAcct hl
+  | none =>
+    unfold loadAcct at hl
+    cases hc : KV.get l.cache.inner a with
+    | some ia => rw [hc] at hl; cases hl
+    | none =>
+      rw [hc] at hl
+      simp only at hl
+      cases hd : KV.get l.db.acct a with
+      | some ia => rw [hd] at hl; cases hl
+      | none => rfl
+
+/-- two ledgers with the same account objects and database whose inner-account caches both agree with the database: balance, nonce
+and code hash of every account read alike -/
+theorem inner_agree_of_innerDb (l l' : L) (hacc : l'.accounts = l.accounts) (hdb : l'.db = l.db)
+    (h : InnerDb l) (h' : InnerDb l') (a : Addr) : peekInner l' a = peekInner l a := by
+  cases hg : KV.get l.accounts a with
+  | some acc =>
+    rw [peekInner_of_present (by rw [hacc]; exact hg), peekInner_of_present hg]
+  | none =>
+    rw [peekInner_not_object l' a (by rw [hacc]; exact hg), peekInner_not_object l a hg, hdb]
+    cases hc' : KV.get l'.cache.inner a with
+    | some ia' =>
+      have e' := h' a ia' hc'
+      rw [hdb] at e'
+      cases hc : KV.get l.cache.inner a with
+      | some ia => have e := h a ia hc; rw [e] at e'; injection e' with e'; simp [e']
+      | none => simp [e']
+    | none =>
+      cases hc : KV.get l.cache.inner a with
+      | some ia => have e := h a ia hc; simp [e]
+      | none => rfl
+
+theorem InnerDb.evict {l : L} (h : InnerDb l) (a : Addr) :
+    InnerDb { l with cache := { l.cache with inner := KV.erase l.cache.inner a } } := by
+  intro b ia hb
+  simp only at hb
+  by_cases e : a = b
+  · subst e; rw [KV.get_erase_eq] at hb; cases hb
+  · rw [KV.get_erase_ne _ _ _ e] at hb; exact h b ia hb
+
+
 end Bxh.Ledger
